@@ -46,7 +46,7 @@ package nodeutil
 //@   property C15 C13
 //@   requires e != nil
 //@   assigns jstrs, jbytes
-//@   loop 1 invariant 0 <= start && start <= i && i <= len(s) && jstrs >= old(jstrs)
+//@   loop 1 invariant 0 <= start && start <= i && i <= len(s) && jstrs >= old(jstrs) && jbytes >= old(jbytes) + 1
 //@   loop 1 invariant forall k int :: start <= k && k < i && s[k] < 128 ==> asciiSafe(s[k], escapeHTML)
 //@   loop 1 decreases len(s) - i
 //@   callsite WriteByte#1: arg0 == '"' && jbytes == old(jbytes) && jstrs == old(jstrs)
@@ -67,15 +67,33 @@ package nodeutil
 //@   callsite WriteString#7: arg0 === s[start:] && i == len(s)
 //@   callsite WriteByte#10: arg0 == '"'
 //@   check [pendingFlushed] jstrs >= old(jstrs) + (start < len(s) ? 1 : 0)
+//@   ensures jbytes >= old(jbytes) + 2
 
 // ---- C15: per-format rendering of one value (the closure writeValue hands to val.Reduce) -------------------------
 // what is pinned down: which writer call renders each format — quoted and escaped (writeString) for strings, binary,
 // bits, identityrefs and enum labels; the literal [null] for an empty leaf; never a raw, unquoted copy of a string
+// the quoting writer of the JSON writer: the string goes through the escaper above (escapeHTML on), and what reaches
+// the output stream is the escaper's buffer — nothing is written raw
+//@ extern bytes.NewBuffer(buf []byte) *bytes.Buffer
+//@   assigns nothing
+//@   ensures result != nil
+//@ extern bytes.(*Buffer).Reset()
+//@   assigns nothing
+//@ extern bytes.(*Buffer).Bytes() []byte
+//@   assigns nothing
+//@ ghost var jout int
+//@ extern bufio.(*Writer).Write(p []byte) (int, error)
+//@   assigns jout
+//@   ensures jout == old(jout) + 1
 //@ func (wtr *JSONWtr) writeString(s string) error
-//@   trusted
-//@   assigns jquoted
-//@   ensures jquoted == old(jquoted) + 1
-//@ ghost var jquoted int
+//@   mode int
+//@   property C15
+//@   requires wtr != nil
+//@   callsite writeString: arg1 === s && arg2
+//@   callsite WriteString: false
+//@   callsite WriteRune: false
+//@   callsite WriteByte: false
+//@   check [throughEscaper] jbytes >= old(jbytes) + 2 && jout == old(jout) + 1
 //@ extern bufio.(*Writer).WriteString(s string) (int, error)
 //@   assigns jraw
 //@   ensures jraw == old(jraw) + 1
